@@ -2796,7 +2796,10 @@ class BaseInterpreter(Generic[TContext, TEvent]):
                     delay_ms,
                 )
                 continue
-            for t_def in transitions:
+            # ⏲️ One timer per delay, not per candidate: every candidate
+            #    under a delay shares the same event, so arming one timer
+            #    each made the delay elapse (and fire) once per candidate.
+            for t_def in transitions[:1]:
                 delay_sec = float(resolved_ms) / 1000.0
                 after_event = AfterEvent(type=t_def.event)
                 self._after_timer(delay_sec, after_event, owner_id=state.id)
